@@ -514,6 +514,21 @@ def isPoly (one : Nat) : NExp → Bool
 /-- The shape `norm_full` produces: `0` or a polynomial. -/
 def isNF (one : Nat) (t : NExp) : Bool := t == .num 0 || isPoly one t
 
+/-- the atoms of a term -/
+def atomsOf : NExp → List (Nat × Shape)
+  | .atom i s => [(i, s)]
+  | .num _ => []
+  | .add a b => atomsOf a ++ atomsOf b
+  | .mul a b => atomsOf a ++ atomsOf b
+  | .suc a => atomsOf a
+
+/-- atoms are determined by their rank (the hypothesis of `norm_full_iff_poly`: then the table
+`sh i := the shape of the atom of rank i` makes every atom a table entry), and no atom has the rank
+of the constant `one`. -/
+def atomsByRank (one : Nat) (t : NExp) : Bool :=
+  let l := atomsOf t
+  l.all (fun p => p.1 != one && l.all (fun q => p.1 != q.1 || p.2 == q.2))
+
 /-- Value in ℕ under a valuation of the atoms. -/
 def eval (ρ : Nat → Nat) : NExp → Nat
   | .atom i _ => ρ i
